@@ -221,6 +221,12 @@ def Ctx.setCell (c : Ctx) (k : Nat) (v : Option Nat) : Ctx := { c with smap := c
 def Ctx.markHighpassed (c : Ctx) (b : Bool) : Ctx := if c.is = c.highwater then { c with highpassed := b } else c
 /-- `if (is == smap.highwater()) smap.highwater(v);` (which also clears `highpassed`) -/
 def Ctx.moveHighwater (c : Ctx) (v : Option Nat) : Ctx := if c.is = c.highwater then { c with highwater := v, highpassed := false } else c
+/-- `if (is->prev()) { is = is->prev(); if (is == smap.highwater()) smap.highpassed(false); }` – the second half: the cursor has
+just stepped back to `p`; on the high-water mark it is no longer "passed" -/
+def Ctx.backOnto (c : Ctx) (p : Option Nat) : Ctx :=
+  match p with
+  | some _ => c.markHighpassed false
+  | none => c
 
 /-- `slotat(x)`: `none` with the status set when the offset is outside the map -/
 def slotat (c : Ctx) (x : Int) : Option Nat × Ctx :=
@@ -321,7 +327,7 @@ def opDelete (c : Ctx) : Outcome :=
     let si := c.seg.get i
     if si.deleted then die c else
     let seg := ((c.seg.upd i fun sl => sl.setDeleted true).unlink i).detach i
-    .cont (((c.moveHighwater si.next).withSeg (seg.addGlyphs (-1))).setIs (match si.prev with | some p => some p | none => c.is))
+    .cont ((((c.moveHighwater si.next).withSeg (seg.addGlyphs (-1))).setIs (match si.prev with | some p => some p | none => c.is)).backOnto si.prev)
 
 /-- `memcpy(is, ref)` followed by the repairs of the copy's own links and index -/
 def Slot.copyFrom (si sr : Slot) : Slot :=
